@@ -103,6 +103,29 @@ func init() {
 	}
 }
 
+func init() {
+	// C02: the CycloneDX parser keeps only the first usable licence entry
+	KnownPredicates["cdx_license_truncation"] = func(c *Case) bool {
+		if c.Kind != "oracle" || asStr(c.Op["op"]) != "cdxRT" {
+			return false
+		}
+		for _, m := range c.Messages {
+			if m != "(not minimised)" && !strings.HasPrefix(m, "licence list of node") {
+				return false
+			}
+		}
+		// and the written list really had two or more entries somewhere
+		doc, _ := c.Op["doc"].(M)
+		nl, _ := doc["nl"].(M)
+		for _, n := range asList(nl["nodes"]) {
+			if len(asList(attrOf(n.(M), "Licenses"))) >= 2 {
+				return true
+			}
+		}
+		return false
+	}
+}
+
 // Covered returns the id of the first known finding whose predicate covers the case.
 func (kf *KnownFile) Covered(c *Case) string {
 	for _, k := range kf.Known {
